@@ -67,7 +67,7 @@ def model_strategy():
     plain = st.sampled_from(['GaussianUnivariate', 'UniformUnivariate', 'BetaUnivariate', 'GammaUnivariate',
                              'StudentTUnivariate', 'LogLaplace']).map(lambda c: {'cls': c, 'opts': {}})
     kde = st.fixed_dictionaries({'cls': st.just('GaussianKDE'), 'opts': st.fixed_dictionaries({
-        'bw_method': st.one_of(st.sampled_from([None, 'scott', 'silverman', 1.0]), st.floats(0.05, 1.0)),
+        'bw_method': st.one_of(st.sampled_from([None, 'scott', 'silverman', 1.0]), st.floats(0.05, 1.0), st.floats(1.0, 4.0)),
         'sample_size': st.one_of(st.none(), st.none(), st.integers(20, 200)),
         # clearly non-uniform kernel weights (one per training value; ignored together with sample_size)
         'weights_seed': st.one_of(st.none(), st.none(), st.integers(0, 10 ** 6))})})
@@ -281,6 +281,8 @@ def oracle(case):
         pd2 = {} if kde else value(m.to_dict, what='to_dict')
         mag2 = abs(float(pd2.get('loc', 0.0))) + abs(float(pd2.get('scale', 0.0)))
         tolx = 1e-8 / np.maximum(dens, 1e-300) + 1e-9 * np.abs(xin[ok]) + 1e-12 * rng + 64 * np.finfo(float).eps * mag2
+        if kde:
+            tolx = tolx + 2e-15          # absolute floor of the root finder in x (2*eps_a), as in group 3
         good = np.abs(back - xin[ok]) <= tolx
         # flat stretches of the CDF (density ~ 0) make x non-unique: only the CDF value must agree
         if not good.all():
